@@ -1007,10 +1007,23 @@ def _decorate_new_with_invariants(new_func: CallableT) -> CallableT:
 
     def wrapper(*args, **kwargs):  # type: ignore
         """Pass the arguments to __new__ and check invariants on the result."""
-        instance = new_func(*args, **kwargs)
+        if (
+            new_func is object.__new__
+            and len(args) > 0
+            and isinstance(args[0], type)
+            and args[0].__init__ is not object.__init__
+        ):
+            # ``object.__new__`` tolerates the constructor arguments only if it is not overridden.
+            # Since we override it with this wrapper, we have to drop the arguments which are meant
+            # for the ``__init__`` of a sub-class.
+            instance = new_func(args[0])
+        else:
+            instance = new_func(*args, **kwargs)
 
-        for invariant in instance.__class__.__invariants__:
-            _assert_invariant(contract=invariant, instance=instance)
+        if instance.__class__.__init__ is object.__init__:
+            # Otherwise, the instance is not constructed yet; the invariants are checked after ``__init__``.
+            for invariant in instance.__class__.__invariants__:
+                _assert_invariant(contract=invariant, instance=instance)
 
         return instance
 
